@@ -16,6 +16,14 @@ def depth(tier):
     return 2 if tier == 'quick' else 3
 
 
+VARIANTS = ('deepcopy', 'fresh-labels')
+
+
+def VARIANT_PRED(t, v):
+    """deep-copied circuits from start state S4; labels passed as string objects of their own from S1"""
+    return t.get('start') == ('S4' if v == 'deepcopy' else 'S1')
+
+
 def plan(tier):
     t = []
     for s in history.START_NAMES:
